@@ -178,6 +178,15 @@ def run(ctx):
         fp = f"verif.{e['op']}/{clause}/sub={e.get('sub', '-')},mode=trace"
         ctx.violation(fp, f"recorded history of {len(hist)} calls: {short(e)} disagrees with the specification on {clause}",
                       {"kind": "verif-history", "history": hist})
+    # (2b) the tracker histories of the repository's own tests (every call recorded at its return)
+    from .. import repotests
+    bad = ctx.validate_trace("Trace_Verificator", repotests.tracker_histories(ctx), "repo-tests")
+    for i, clause in sorted(bad.items()):
+        hist = ctx.trace_history(i)
+        e = hist[-1]
+        ctx.violation(f"verif.{e['op']}/{clause}/sub={e.get('sub', '-')},mode=repo-test",
+                      f"tracker history of {hist[0].get('test')} ({len(hist)} calls): {short(e)} disagrees with the specification on {clause}",
+                      {"kind": "verif-repo-history", "history": hist})
     # (3) the tracker inside the end-to-end session (Link.tla)
     from .. import link
     link.run_stage(ctx)
@@ -230,6 +239,19 @@ def replay(r):
         ok = post == r["expected_state"] and ret == r["expected_ret"]
         return ok, (f"path {short(r['path'], 1200)}\n expected ret {short(r['expected_ret'])} state {short(r['expected_state'], 600)}"
                     f"\n observed ret {short(ret)} state {short(post, 600)}")
+    if r["kind"] == "verif-repo-history":
+        from .. import repotests
+
+        class C:
+            def workdir(self, name):
+                import tempfile
+                return tempfile.mkdtemp(prefix="vp-" + name)
+        repotests._CACHE.clear()
+        hs = [h for h in repotests.record(C())["tracker"] if h["test"] == r["history"][0].get("test")]
+        want = [{k: e[k] for k in e if k not in ("id", "test")} for e in r["history"][1:]]
+        same = any([dict(e, tab=e["tab"]) for e in h["events"]][:len(want)] == [dict(w_, tab=w_["tab"][:len(e["tab"])]) for w_, e in zip(want, h["events"])] for h in hs)
+        return (not same), (f"history of {r['history'][0].get('test')} re-recorded: the rejected call "
+                            f"{short(r['history'][-1], 600)} is {'still' if same else 'no longer'} observed")
     hist = r["history"]
     w = World(hist[0]["n"])
     v = PusVerificator()
